@@ -133,6 +133,16 @@ fn oracle_ok(ctx: &mut Ctx, input: &str, c: &AisleConf) {
     let rt = guarded(|| {
         let mut buf = Vec::new();
         aisle::write(c, &mut buf).map_err(|e| e.to_string())?;
+        // the destination is any `io::Write`: a sink that takes a few bytes per call (as a pipe or a socket may) has to end up
+        // with the same bytes
+        struct Chunky { out: Vec<u8>, n: usize }
+        impl std::io::Write for Chunky {
+            fn write(&mut self, b: &[u8]) -> std::io::Result<usize> { let k = b.len().min(self.n); self.out.extend_from_slice(&b[..k]); Ok(k) }
+            fn flush(&mut self) -> std::io::Result<()> { Ok(()) }
+        }
+        let mut chunky = Chunky { out: Vec::new(), n: 1 + input.len() % 5 };
+        aisle::write(c, &mut chunky).map_err(|e| e.to_string())?;
+        if chunky.out != buf { return Err(format!("a sink that accepts {} byte(s) per call received {:?}, a Vec received {:?}", chunky.n, String::from_utf8_lossy(&chunky.out), String::from_utf8_lossy(&buf))); }
         let text = String::from_utf8(buf).map_err(|e| e.to_string())?;
         let again = match aisle::parse(&text) { Ok(c2) => if &c2 == c && c2.categories == c.categories { "same".to_string() } else { format!("diff: {}", render_conf(&c2)) }, Err(e) => format!("err: {}", render_err(&e, &text)) };
         Ok::<(String, String), String>((text, again))
